@@ -136,6 +136,38 @@ def run(ctx, replay=None):
                               rew=steps.R_SHIPPED, term=steps.TERM_SHIPPED, want=['C12']), ['C12'])
 
     trajectories_part(ctx)
+    returns_part(ctx)
+
+
+def returns_part(ctx):
+    """utils/rl.make_return_computer against Trace_Returns (beyond the listed property: drift only)"""
+    from harness.tlc import run_tlc
+    from gym_gridverse.utils.rl import make_return_computer
+
+    rng = random.Random(ctx.seed + 99)
+    recs = []
+    for k in range(200 if ctx.quick else 3000):
+        dexp = rng.choice([0, 1, 2])
+        n = rng.randint(1, 8)
+        rnum = [rng.randint(-40, 40) for _ in range(n)]
+        f = make_return_computer(1.0 / 2 ** dexp)
+        scaled, exact = [], []
+        for j, rn in enumerate(rnum):
+            g = f(rn / 8.0) * 8 * 2 ** (dexp * j)
+            scaled.append(int(round(g)))
+            exact.append(abs(g - round(g)) < 1e-9)
+        recs.append({'id': k, 'dexp': dexp, 'rnum': rnum, 'scaled': scaled, 'exact': exact})
+    path = os.path.join(ctx.work, 'returns.ndjson')
+    with open(path, 'w') as fh:
+        for r in recs:
+            fh.write(json.dumps(r) + '\n')
+    res = run_tlc('Trace_Returns', env={'TRACE_FILE': path}, workers=1, timeout=600)
+    ctx.add_tlc(res, 'Trace_Returns (make_return_computer)')
+    for t in res.find('BAD'):
+        ctx.drift(f'make_return_computer differs from the discounted sum: {recs[t[1]]}')
+    ctx.add_counts(evaluations=len(recs), traces=len(recs))
+    ctx.add_part('discounted returns (utils/rl.py)', records=len(recs), mismatches=len(res.find('BAD')))
+    os.remove(path)
 
 
 def _hist_worker(args):
